@@ -608,23 +608,40 @@ def rename_classes_back(model, CLASSES: dict) -> list:
     missing = [q for q in CLASSES if q not in cur and q.count(".") == 1]
     new = [c for q, c in cur.items() if q not in CLASSES and q.count(".") == 1]
     taken = set()
+    import difflib
+
+    # all (pinned class, new class) pairs of one module, best first: members first, then resemblance of the names (several small
+    # classes may have exactly the same members: `_NamedDim` / `_NamedVariadicDim`)
+    pairs_ = []
     for q in sorted(missing):
         mod, old = q.split(".")
         if mod not in model.modules:
             continue
         pm = set(CLASSES[q])
-        scored = []
         for c in new:
-            if c.module.short != mod or c.qualname in taken:
+            if c.module.short != mod:
                 continue
             cm = class_members(c.node)
             if not pm and not cm:
                 continue
-            scored.append((len(pm & cm) / max(1, len(pm | cm)), c.qualname, c))
-        scored.sort(key=lambda x: (-x[0], x[1]))
-        if not scored or scored[0][0] < 0.6 or (len(scored) > 1 and scored[1][0] == scored[0][0]):
+            sc = len(pm & cm) / max(1, len(pm | cm))
+            if sc >= 0.6:
+                pairs_.append((sc, difflib.SequenceMatcher(None, old, c.node.name).ratio(), q, c))
+    pairs_.sort(key=lambda x: (-x[0], -x[1], x[2], x[3].qualname))
+    chosen = {}
+    for sc, nr, q, c in pairs_:
+        if q in chosen or c.qualname in taken:
             continue
-        c = scored[0][2]
+        # ambiguous: another candidate for q (or another pinned class for c) with the same scores
+        rivals = [p_ for p_ in pairs_ if (p_[2] == q) != (p_[3] is c) and (p_[2] == q or p_[3] is c) and p_[0] == sc and p_[1] == nr
+                  and p_[2] not in chosen and p_[3].qualname not in taken]
+        if rivals:
+            continue
+        chosen[q] = c
+        taken.add(c.qualname)
+    for q in sorted(chosen):
+        mod, old = q.split(".")
+        c = chosen[q]
         newn = c.node.name
         affected = [c.module]
         for m2 in model.modules.values():
@@ -635,7 +652,6 @@ def rename_classes_back(model, CLASSES: dict) -> list:
                 affected.append(m2)
         if any(old in _names_in(m2.tree) for m2 in affected):
             continue
-        taken.add(c.qualname)
         c.node.name = old
         for m2 in affected:
             plain = m2 is c.module
